@@ -113,7 +113,16 @@ def _hourly_output_case(seed):
             g.field_type, g.fieldSpecifier = "rectangle", "1x2"
             out = OutputManager(SimpleNamespace(ghe=g, searchTracker=[["1x2", 0.0, 0.0, 0.0]]), 0.0, "p", "n", "a", "m", load_method=TimestepType.HOURLY)
             rows = [list(r) for r in out.hourly_loading_data_rows[1:]]
-        return {"rows": rows, "loads": reference}
+            # a second report in the same process, for another field with other loads: its table echoes ITS loads, and the table
+            # already handed out for the first field does not change
+            g2 = _mk_real_ghe(1, 1, 100.0, months=12, amp=4321.0)
+            reference2 = list(profile(4321.0))
+            g2.simulate(method=TimestepType.HYBRID)
+            g2.field_type, g2.fieldSpecifier = "rectangle", "1x1"
+            out2 = OutputManager(SimpleNamespace(ghe=g2, searchTracker=[["1x1", 0.0, 0.0, 0.0]]), 0.0, "p", "n", "a", "m", load_method=TimestepType.HYBRID)
+            rows2 = [list(r) for r in out2.hourly_loading_data_rows[1:]]
+            rows_again = [list(r) for r in out.hourly_loading_data_rows[1:]]
+        return {"rows": rows, "loads": reference, "rows2": rows2, "loads2": reference2, "first_table_unchanged": rows_again == rows}
     except Exception as ex:  # noqa: BLE001
         return {"error": f"{type(ex).__name__}: {ex}"}
 
@@ -224,6 +233,15 @@ def run_c19() -> int:
                 break
         if len(lr) != 8760 or bad:
             chk.violation(f"C19 Loadings table after a two-year HOURLY simulation does not echo the 8760 input loads (rows {len(lr)}, first mismatch {bad})", {"rows": len(lr)})
+        bad2 = None
+        for h, row in enumerate(o["rows2"][:8760]):
+            if len(row) != 5 or tuple(row[:3]) != hours[h] or row[3] != h or float(row[4]) != o["loads2"][h]:
+                bad2 = (h, row)
+                break
+        if len(o["rows2"]) != 8760 or bad2:
+            chk.violation(f"C19 Loadings table of a second report in the same process does not echo that field's own loads (rows {len(o['rows2'])}, first mismatch {bad2})", {"mismatch": bad2})
+        if not o["first_table_unchanged"]:
+            chk.violation("C19 the Loadings table of an earlier report changed when a later report was prepared", {})
         chk.traces += 1
     chk.note("real_designs_with_tables", len(seeds) + 1)
     chk.exhaustive = True
